@@ -40,12 +40,30 @@ T = {
  "C10": dict(tech="TLA+ API machine: verdict independent of seed and mode, RecoverOnly masks; TLC-enumerated, replayed",
              text="valid and invalid proofs x {no seed, right seed, wrong seed} x three modes; predicted verdicts and mask classes (exact / other / none) compared on both groups.",
              ref="§6 C10"),
+ "C15": dict(tech="TLA+ step-wise decoder (MC_Codec) == closed-form acceptance set, checked by TLC over (length, first byte, non-canonical chunk); every state executed on from_bytes/serde; prover outputs round-tripped",
+             text="The decoder is a pc-machine shaped like the code (first byte, chunks_exact, d1 x tag, points, r1/s1, pairs, non-empty, leftovers); TLC proves acceptance <=> the closed form of C15 over every (total length 0..642, first byte class, which chunk is non-canonical) and prints each state; the harness builds concrete bytes for each (canonical random scalars, four kinds of non-canonical encodings) and checks from_bytes, re-encoding equality, the bincode form and getters. Prover outputs over the configuration lattice are checked for the length formula and decode(encode(p)) = p; the n*m = 1 failure is the recorded finding.",
+             ref="§6 C15"),
+ "C16": dict(tech="TLA+ totality of decoder and API machine (TLC), TLC-enumerated hostile shapes replayed under catch_unwind in release (overflow checks on) and dev profiles, random strings of every length",
+             text="Every TLC state of the decoder machine and every behaviour of the hostile family (round counts up to 200 and around 31/32/63/64, every degree tag, identity and undecodable points per slot, truncated/trailing bytes, all three modes), every single alteration and every batch shape (length skews, disagreeing members, beyond the chunk limit) is executed on both groups; a panic, abort or a result other than the predicted value/error class is a violation. Time proportionality is only policed by the harness timeout.",
+             ref="§6 C16"),
+ "C17": dict(tech="TLA+ constructor guards as coded == documented domains (MC_Constructors, TLC), exhaustive execution of every state on the real constructors",
+             text="bit length x capacity in 0..130, commitment count 0..17 x promise count x seed x capacity, all opening shapes with blinding counts 0..8 (<= 4 openings), mask and commit lengths 0..8 x degree, every u8 and a usize set incl. 2^32 +- 1 and usize::MAX: each is one TLC state with the predicted Ok/Err; the harness calls the constructor and compares outcome and getter values (no silent adjustment) on both groups.",
+             ref="§6 C17"),
+ "C18": dict(tech="TLC: once-cell model over all interleavings with liveness (MC_Once), pure-call history model (MC_Histories) with negatives; TLC-generated histories executed on real threads with forced hand-off; races in fresh processes validated by TLC (TraceThreads)",
+             text="(MC) two dependent once-cells x 3 threads, all interleavings: single initialisation, readers see the complete value, no stuck state, termination under fairness; check-then-act initialisation is caught. Call histories over a 10-call menu (parameter sets sharing bit length or capacity, proofs with fixed RNG streams, verifications, generator accessors, a shared parameter object) are enumerated by TLC and executed with the same hand-off order on real threads; free-running threads behind a barrier in fresh processes race the first use of the statics. TLC validates every recorded return against the reference digest of the same call run alone in a fresh single-threaded process. Real schedules are sampled, not enumerated.",
+             ref="§6 C18"),
+ "C20": dict(tech="TLC: heap-block lifecycle model (Memory.tla) with a seeded unwiped-copy negative; tracing global allocator records every release during secret-handling scenarios in dev and release profiles; TLC validates the trace (TraceMemory)",
+             text="A tracing global allocator scans every block released (dealloc/realloc) while the library handles secrets - drops of opening/witness/mask, seeded and unseeded prove, verify with recovery, recover-only, a prover error path - for the byte patterns of the seed, every blinding factor and 64-bit value; TLC accepts the trace only if no release carries a secret and the inline statement seed is gone after drop. Degrees 1..6, aggregation 1..4, 8- and 64-bit. Only heap blocks released during the scenarios are covered (not stack or registers).",
+             ref="§6 C20"),
  "C13": dict(tech="TLC term model (freshness, generator sees whole transcript); TLC trace validation of the prover in 252-bit arithmetic with nonces read off the proof points (TraceProve)",
              text="The prover runs over the free-module group, so alpha_k, dL/dR, d, eta are coordinates of A, L_j/R_j, A1, B and r, s follow from r1, s1; TLC checks they are non-zero, pairwise distinct, each the reduction of an output of a generator built after the latest absorption preceding its use (unseeded) or exactly the reference seed derivation at (label, j, k) (seeded; r and s still from the generator), and that different runs share none - for all degrees 1..6.",
              ref="§6 C13"),
  "C14": dict(tech="TLC term model under RNG fault models (negatives: no witness rekey, no rebuild); TLC trace validation of generator keying and of run pairs under faulty external RNGs (TraceProve CrossFresh)",
              text="(MC) with the external RNG all-zero / constant / period-2 / replayed, runs differing in any one input - the witness alone included - share no nonce term and identical runs reproduce; dropping the witness rekey or the rebuild is caught. (TV) in recorded prover runs every generator that produced output was rekeyed with the serialised witness and finalised with external bytes, and is rebuilt after each absorption group; pairs of runs with identical blindings and the same faulty RNG stream, identical or differing in one input, are validated by TLC: identical => same nonces, different => disjoint.",
              ref="§6 C14"),
+ "C11": dict(tech="TLC: naming/layout model of the generators (MC_Generators: injectivity, interleaved positions, capacity independence) that prints the derivation script; the harness executes the script with SHAKE256/SHA3-512 against the library for every (bits, capacity); TLC trace validation of table layout",
+             text="TLC checks that the naming function (prefix || kind || LE32(party), block index) is injective over 2*32*64 names and disjoint from the six blinding labels, that table positions interleave G and H bijectively, and capacity independence; it prints the byte strings of the derivation, which the harness executes independently and compares with every generator of every (bits in 1..64, capacity in 1..32) parameter set on Ristretto and the free-module group: equality with the documented derivation, pairwise distinct non-identity encodings (4096 + 7), compressed accessors = encodings, precomputed table == interleaved generators (random and unit vectors through the table vs plain MSM), concurrent construction on threads; static scalar positions in recorded prover/verifier MSMs are validated against the layout.",
+             ref="§6 C11"),
  "C12": dict(tech="TLA+ API machine: capacity irrelevant to validity; all capacity pairs and mixed-capacity batches replayed",
              text="All pairs (prover capacity, verifier capacity) >= m up to 32 and mixed-capacity batches are behaviours of the spec predicted to accept; replayed on both groups.",
              ref="§6 C12"),
